@@ -175,7 +175,7 @@ impl Search {
         let n_rand = match (which, q) {
             (Which::C01, true) => 100_000, (Which::C01, false) => 1_000_000,
             (Which::C11, true) => 40_000, (Which::C11, false) => 300_000,
-            (Which::C05, true) => 20_000, (_, true) => 120_000, (_, false) => 1_000_000,
+            (Which::C05, true) => 20_000, (Which::C05, false) => 200_000, (_, true) => 120_000, (_, false) => 1_000_000,
         };
         // the cut-focused family: complete enumeration for the properties whose corpus has cuts
         let cutfam = match which { Which::C02 | Which::C05 | Which::C11 => Some(CutFamily::new(false)), Which::C04 => Some(CutFamily::new(true)), _ => None };
